@@ -498,7 +498,14 @@ class _Exporter:
 
         if isinstance(lhs, (str, ValueInfoProto)):
             return [assign(lhs, rhs)]
-        return [assign(x, y) for x, y in zip(lhs, rhs)]
+        pairs = list(zip(lhs, rhs))
+        if len(pairs) <= 1:
+            return [assign(x, y) for x, y in pairs]
+        # The assignments are simultaneous (e.g., loop-carried values may be permuted by the
+        # loop body): emit a single parallel assignment.
+        lhs_vars = ", ".join(to_var(x) for x, _ in pairs)
+        rhs_vars = ", ".join(to_ref(y) for _, y in pairs)
+        return [f"{sindent}{lhs_vars} = {rhs_vars}"]
 
     def _translate_loop(self, node, opsets, indent=0):
         """Translates a node Loop into python."""
